@@ -269,7 +269,9 @@ fn hook(ev: Event) {
                 max_num_threads.min(u32::MAX as usize) as u32,
                 aux,
             );
-            let _ = input_len;
+            if let Some(len) = input_len {
+                obs::record(Kind::RunLen, 0, 0, len as u64);
+            }
             let mut st = lock();
             if st.active && !nested {
                 let me = obs::tid();
